@@ -1,5 +1,5 @@
 //! LoopSignal / run(None) / block_on under the baton scheduler (C11).
-//! Case line:  run|blockon <futscript over p(ending) r(eady)> | prog1;prog2 | schedule     progs over s (stop) w (wakeup) k (wake the future)
+//! Case line:  run|blockon <futscript over p(ending) r(eady) w(akes itself, then pending)> | prog1;prog2 | schedule     progs over s (stop) w (wakeup) k (wake the future)
 //! Output: executed steps `tid:yieldid`, POLL, ITER, WOKE, RET0/RET1.
 use crate::m_cchan::do_step;
 use crate::sched::{Sched, Status};
@@ -12,7 +12,7 @@ use std::task::{Context, Poll, Waker};
 type Log = Arc<Mutex<Vec<String>>>;
 
 struct ScriptFut {
-    outcomes: Vec<bool>,
+    outcomes: Vec<u8>,
     idx: usize,
     slot: Arc<Mutex<Option<Waker>>>,
     log: Log,
@@ -22,12 +22,16 @@ impl Future for ScriptFut {
     fn poll(mut self: Pin<&mut Self>, cx: &mut Context<'_>) -> Poll<u32> {
         *self.slot.lock().unwrap() = Some(cx.waker().clone());
         self.log.lock().unwrap().push("POLL".into());
-        let r = self.outcomes.get(self.idx).copied().unwrap_or(false);
+        let r = self.outcomes.get(self.idx).copied().unwrap_or(0);
         self.idx += 1;
-        if r {
-            Poll::Ready(42)
-        } else {
-            Poll::Pending
+        match r {
+            1 => Poll::Ready(42),
+            2 => {
+                // the future wakes itself from inside its poll (what a yielding future does)
+                cx.waker().wake_by_ref();
+                Poll::Pending
+            }
+            _ => Poll::Pending,
         }
     }
 }
@@ -39,7 +43,16 @@ fn run_case(line: &str) -> String {
     }
     let head: Vec<&str> = parts[0].split_whitespace().collect();
     let blockon = head.first() == Some(&"blockon");
-    let script: Vec<bool> = head.get(1).unwrap_or(&"").chars().map(|c| c == 'r').collect();
+    let script: Vec<u8> = head
+        .get(1)
+        .unwrap_or(&"")
+        .chars()
+        .map(|c| match c {
+            'r' => 1,
+            'w' => 2,
+            _ => 0,
+        })
+        .collect();
     let progs: Vec<String> = parts[1].split(';').map(|s| s.trim().to_string()).collect();
     let schedule: Vec<usize> = parts[2].chars().filter_map(|c| c.to_digit(10).map(|d| d as usize)).collect();
     let n = progs.len() + 1;
